@@ -10,6 +10,8 @@ import (
 	"sort"
 	"strconv"
 	"strings"
+	"sync"
+	"sync/atomic"
 	"time"
 
 	"github.com/postalsys/muti-metroo/internal/flood"
@@ -25,6 +27,7 @@ import (
 //
 //	reset <N> <maxHops> <loc0> .. <locN-1>   loc = kind.key.metric+... | _   (kind 0 cidr 1 domain 2 forward)
 //	connect a b        link a<->b comes up (no traffic yet)
+//	disconnect a b     the connection a<->b is lost: queued frames are dropped, both ends run handlePeerDisconnect
 //	replay a b         a runs SendFullTable(b)              -> r=ord:<origins in emission order>
 //	announce a         a runs AnnounceLocalRoutes()
 //	withdraw a         a runs WithdrawLocalRoutes() (ROUTE_WITHDRAW frames share the seen cache and floodFrame)
@@ -34,6 +37,9 @@ import (
 //	expire a o s       seen-cache key (o,s) of a expires (production cleanupSeenCache)  -> r=removed|absent
 //	stale a age        a runs CleanupStale*Routes with a cutoff of `age` logical ticks -> r=removed:<n>
 //	dump               full state
+//	race k rounds      stateless stress: the same announcement reaches a fresh agent from k neighbours at
+//	                   once (k goroutines, start barrier), `rounds` times -> r=race accepted=<max #true> fwd=<max
+//	                   frames to one downstream neighbour> (must be 1 and 1: processed once, forwarded once)
 //
 // Output: r=<res> followed by the state of the acting node (n<i>=<seq>/<seen>/<table>) and the queues
 // it touched (q<a>.<b>=<msgs>). Logical time = op index inside the case; LastUpdate is printed as the
@@ -443,6 +449,24 @@ func (nw *c11Net) apply(f []string) string {
 		nw.links[[2]int{a, b}] = true
 		nw.links[[2]int{b, a}] = true
 		return "r=ok"
+	case "disconnect":
+		a, b := arg(1), arg(2)
+		if !node(a) || !node(b) || !nw.links[[2]int{a, b}] {
+			return "r=nolink"
+		}
+		delete(nw.links, [2]int{a, b})
+		delete(nw.links, [2]int{b, a})
+		delete(nw.q, [2]int{a, b})
+		delete(nw.q, [2]int{b, a})
+		// Agent.handlePeerDisconnect at both ends
+		for _, e := range [][2]int{{a, b}, {b, a}} {
+			m, peer := nw.nodes[e[0]].mgr, c11ID(e[1])
+			m.HandlePeerDisconnect(peer)
+			m.HandlePeerDisconnectDomain(peer)
+			m.HandlePeerDisconnectForward(peer)
+			m.HandlePeerDisconnectAgent(peer)
+		}
+		return out("ok", nodeS(a), nodeS(b))
 	case "replay":
 		a, b := arg(1), arg(2)
 		if !node(a) || !node(b) || !nw.links[[2]int{a, b}] {
@@ -548,6 +572,12 @@ func (nw *c11Net) apply(f []string) string {
 		m := nw.nodes[a].mgr
 		n := m.CleanupStaleRoutes(maxAge) + m.CleanupStaleDomainRoutes(maxAge) + m.CleanupStaleForwardRoutes(maxAge) + m.CleanupStaleAgentRoutes(maxAge)
 		return out(fmt.Sprintf("removed:%d", n), nodeS(a))
+	case "race":
+		k, rounds := arg(1), arg(2)
+		if k < 2 || k > 16 || rounds < 1 || rounds > 5000 {
+			return "r=bad"
+		}
+		return c11Race(k, rounds)
 	case "dump":
 		return out("dump", func() []string {
 			var parts []string
@@ -561,6 +591,70 @@ func (nw *c11Net) apply(f []string) string {
 		})
 	}
 	return "r=bad"
+}
+
+// c11RaceSender counts frames per peer; safe for concurrent use.
+type c11RaceSender struct {
+	mu    sync.Mutex
+	peers []identity.AgentID
+	sent  map[identity.AgentID]int
+}
+
+func (s *c11RaceSender) SendToPeer(peerID identity.AgentID, frame *protocol.Frame) error {
+	s.mu.Lock()
+	s.sent[peerID]++
+	s.mu.Unlock()
+	return nil
+}
+
+func (s *c11RaceSender) GetPeerIDs() []identity.AgentID { return s.peers }
+
+// c11Race delivers one announcement (same origin and sequence number, one copy per neighbour, each
+// with that neighbour's path / seen-by) to a fresh Flooder from k goroutines released together.
+// With an atomic seen-cache test-and-set exactly one copy is accepted and every other neighbour
+// receives exactly one forwarded frame.
+func c11Race(k, rounds int) string {
+	maxAcc, maxFwd := 0, 0
+	for r := 0; r < rounds; r++ {
+		self, origin, down := c11ID(0), c11ID(200), c11ID(100)
+		snd := &c11RaceSender{sent: map[identity.AgentID]int{}}
+		for i := 1; i <= k; i++ {
+			snd.peers = append(snd.peers, c11ID(i))
+		}
+		snd.peers = append(snd.peers, down)
+		mgr := routing.NewManager(self)
+		fl := flood.NewFlooder(flood.DefaultFloodConfig(), self, mgr, snd)
+		routes := []protocol.Route{
+			{AddressFamily: protocol.AddrFamilyIPv4, PrefixLength: 16, Prefix: []byte{10, 1, 0, 0}, Metric: 1},
+			{AddressFamily: protocol.AddrFamilyAgent, Prefix: protocol.EncodeAgentPrefix(origin), Metric: 1},
+		}
+		var wg sync.WaitGroup
+		start := make(chan struct{})
+		var acc int32
+		for i := 1; i <= k; i++ {
+			from := c11ID(i)
+			enc := &protocol.EncryptedData{Data: protocol.EncodePath([]identity.AgentID{from, origin})}
+			seenBy := []identity.AgentID{origin, from}
+			wg.Add(1)
+			go func() {
+				defer wg.Done()
+				<-start
+				if fl.HandleRouteAdvertise(from, origin, "", uint64(7+r), routes, enc, seenBy) {
+					atomic.AddInt32(&acc, 1)
+				}
+			}()
+		}
+		close(start)
+		wg.Wait()
+		fl.Stop()
+		if int(acc) > maxAcc {
+			maxAcc = int(acc)
+		}
+		if snd.sent[down] > maxFwd {
+			maxFwd = snd.sent[down]
+		}
+	}
+	return fmt.Sprintf("r=race accepted=%d fwd=%d", maxAcc, maxFwd)
 }
 
 func c11Reset(f []string) (*c11Net, string) {
@@ -716,7 +810,7 @@ func c11Gen(w *bufio.Writer, seed int64, tier string) { c11GenProfile(w, seed, t
 
 func c11GenProfile(w *bufio.Writer, seed int64, tier string, prof string) {
 	r := newRng(seed)
-	cases, maxN, steps := 140, 5, 45
+	cases, maxN, steps := 100, 5, 45
 	if tier == "thorough" {
 		cases, maxN, steps = 1800, 7, 70
 	}
@@ -726,14 +820,21 @@ func c11GenProfile(w *bufio.Writer, seed int64, tier string, prof string) {
 			n = 3 + r.intn(2)
 		}
 		g := c11CaseCfg{n: n, steps: steps + r.intn(steps), eagerPct: 60, replayPct: 4, topo: -1}
-		if r.chance(4) { // rare: big mesh / long chain (paths of 8-20 hops), long history on re-used state
+		if r.chance(3) { // rare: big mesh / long chain (paths of 8-20 hops), long history on re-used state
 			g.n = 9 + r.intn(12)
-			g.steps = 4 * steps
+			g.steps = 3 * steps
 			if r.chance(60) {
 				g.topo = r.pick(0, 0, 1)
 			}
 		} else if r.chance(6) { // long history on a small mesh: many reconnect/expiry/redelivery rounds
 			g.steps = 6 * steps
+		} else if r.chance(2) || (prof == "c14" && r.chance(3)) {
+			// an origin with more than 255 routes: announcements and replays span several
+			// advertisements, each with its own sequence number (splitRoutes)
+			g.n = 3 + r.intn(2)
+			g.big = 256 + r.intn(60)
+			g.steps = 25 + r.intn(15)
+			g.eagerPct, g.replayPct = 40, 14
 		}
 		switch prof {
 		case "c11":
@@ -741,6 +842,10 @@ func c11GenProfile(w *bufio.Writer, seed int64, tier string, prof string) {
 				g.mh = r.pick(1, 2, 2, 3, 3, 4, 16)
 			}
 		case "c12":
+			if r.chance(12) {
+				c11GenReroute(w, r)
+				continue
+			}
 			if r.chance(45) {
 				g.clean = true
 			} else if r.chance(15) {
@@ -753,6 +858,11 @@ func c11GenProfile(w *bufio.Writer, seed int64, tier string, prof string) {
 			}
 		case "c14":
 			g.eagerPct, g.replayPct = 25, 12
+			if r.chance(25) {
+				// convergence case with a link that comes up late: its table replay re-advertises other
+				// origins' routes; afterwards every agent announces and everything is delivered
+				g.clean, g.late = true, r.chance(70)
+			}
 		case "c15":
 			// chains / rings / meshes longer than the limit
 			g.mh = r.pick(1, 1, 2, 2, 3, 3, 4)
@@ -776,16 +886,100 @@ func c11GenProfile(w *bufio.Writer, seed int64, tier string, prof string) {
 	}
 }
 
+// c11GenReroute: a link BEHIND the next hop disappears while an equally long alternative exists
+// (D - C, C - X, C - Y, X - A, Y - A): after the origin's next announcements the recorded paths
+// must follow the links that exist now.
+func c11GenReroute(w *bufio.Writer, r *rng) {
+	n := 5 + r.intn(2)
+	locs := c11GenLocs(r, n)
+	locs[0] = fmt.Sprintf("0.1.%d", r.pick(0, 0, 1, 3))
+	head := fmt.Sprintf("reset %d 0 %s", n, strings.Join(locs, " "))
+	nw, _ := c11Reset(fields(head))
+	defer nw.stop()
+	fmt.Fprintln(w, head)
+	emit := func(format string, a ...interface{}) {
+		line := fmt.Sprintf(format, a...)
+		fmt.Fprintln(w, line)
+		nw.apply(fields(line))
+	}
+	drain := func() {
+		for k := 0; k < 2000; k++ {
+			var ne [][2]int
+			for a := 0; a < n; a++ {
+				for _, b := range nw.peers(a) {
+					if len(nw.q[[2]int{a, b}]) > 0 {
+						ne = append(ne, [2]int{a, b})
+					}
+				}
+			}
+			if len(ne) == 0 {
+				return
+			}
+			l := ne[0]
+			if r.chance(50) {
+				l = ne[r.intn(len(ne))]
+			}
+			emit("deliver %d %d 0", l[0], l[1])
+		}
+	}
+	links := [][2]int{{3, 4}, {3, 1}, {3, 2}, {1, 0}, {2, 0}}
+	if n == 6 {
+		links = append(links, [2]int{4, 5})
+	}
+	for i := len(links) - 1; i > 0; i-- {
+		j := r.intn(i + 1)
+		links[i], links[j] = links[j], links[i]
+	}
+	for _, l := range links {
+		emit("connect %d %d", l[0], l[1])
+		emit("replay %d %d", l[0], l[1])
+		emit("replay %d %d", l[1], l[0])
+	}
+	emit("announce 0")
+	drain()
+	// which of X (1) / Y (2) does C's route to A's network run through?
+	via := 1
+	for _, e := range nw.entries(3) {
+		if e.kind == 0 && e.origin == 0 && len(e.path) > 0 {
+			via = e.path[0]
+		}
+	}
+	if via != 1 && via != 2 {
+		via = 1
+	}
+	emit("disconnect %d 0", via)
+	for k := 2 + r.intn(2); k > 0; k-- {
+		emit("announce 0")
+		if r.chance(30) {
+			emit("announce %d", 1+r.intn(n-1))
+		}
+		drain()
+	}
+	emit("dump")
+}
+
 type c11CaseCfg struct {
 	n, mh, steps        int
 	eagerPct, replayPct int
 	topo                int  // -1 random, else c11Topology kind
 	clean               bool // convergence case: see convergeChecks in MM/Model/C11Wire.lean
+	big                 int  // > 0: agent 0 has that many CIDR routes
+	late                bool // clean case: one more link comes up (with table replays) half-way
 }
 
 func c11GenCase(w *bufio.Writer, r *rng, g c11CaseCfg) {
 	n := g.n
 	locs := c11GenLocs(r, n)
+	if g.big > 0 {
+		var ls []string
+		for k := 0; k < g.big; k++ {
+			ls = append(ls, fmt.Sprintf("0.%d.%d", 300+k, r.pick(0, 0, 1, 2)))
+		}
+		if r.chance(50) {
+			ls = append(ls, "1.2.0", "2.1.3")
+		}
+		locs[0] = strings.Join(ls, "+")
+	}
 	head := fmt.Sprintf("reset %d %d %s", n, g.mh, strings.Join(locs, " "))
 	nw, _ := c11Reset(fields(head))
 	defer nw.stop()
@@ -828,6 +1022,17 @@ func c11GenCase(w *bufio.Writer, r *rng, g c11CaseCfg) {
 		return ne
 	}
 	for s := 0; s < g.steps; s++ {
+		if g.late && s == g.steps/2 {
+			for tries := 0; tries < 20; tries++ {
+				a, b := r.intn(n), r.intn(n)
+				if a != b && !nw.links[[2]int{a, b}] {
+					emit("connect %d %d", a, b)
+					emit("replay %d %d", a, b)
+					emit("replay %d %d", b, a)
+					break
+				}
+			}
+		}
 		nonEmpty := nonEmptyLinks()
 		x := r.intn(100)
 		if g.clean { // only deliveries, duplicates and announcements
@@ -877,7 +1082,14 @@ func c11GenCase(w *bufio.Writer, r *rng, g c11CaseCfg) {
 		case x < 97:
 			emit("withdraw %d", r.intn(n))
 		case x < 98:
-			emit("connect %d %d", r.intn(n), r.intn(n))
+			if r.chance(50) || len(nw.links) == 0 {
+				emit("connect %d %d", r.intn(n), r.intn(n))
+			} else { // lose a random live connection
+				a := r.intn(n)
+				if ps := nw.peers(a); len(ps) > 0 {
+					emit("disconnect %d %d", a, ps[r.intn(len(ps))])
+				}
+			}
 		default:
 			if len(nonEmpty) > 0 {
 				l := nonEmpty[0]
@@ -901,6 +1113,9 @@ func c11GenCase(w *bufio.Writer, r *rng, g c11CaseCfg) {
 			break
 		}
 		emit("deliver %d %d 0", ne[0][0], ne[0][1])
+	}
+	if r.chance(2) {
+		emit("race %d %d", 2+r.intn(5), 150)
 	}
 	if g.clean && drained {
 		emit("dump converged")
